@@ -242,6 +242,29 @@ def run_case(case, ctx):
         ctx.tag("mi-cut-from-bigger-panel")
     except Exception as e:  # noqa
         ctx.tag("mi-cut-construction-failed:" + type(e).__name__)
+    # conversions that take labels for the result (instance labels, time index of the cells, column name): labels are put on, never aligned by
+    X2 = arr[:, 0, :]
+    ni_, nt_ = X2.shape
+    for lname, labels in (("default", None), ("offset", [100 + 7 * i for i in range(ni_)]), ("descending", [ni_ - i for i in range(ni_)]),
+                          ("strings", ["id_%d" % (ni_ - i) for i in range(ni_)]), ("permuted-positions", [(i + 1) % ni_ for i in range(ni_)])):
+        for as_numpy in (False, True):
+            tix = None if (as_numpy or lname in ("default", "strings")) else list(range(5, 5 + nt_))
+            src = X2 if lname != "strings" else pd.DataFrame(X2, index=["r%d" % i for i in range(ni_)])
+            try:
+                out = D.from_2d_array_to_nested(src, index=None if labels is None else pd.Index(labels), columns=["series"] if lname != "default" else None,
+                                                time_index=tix, cells_as_numpy=as_numpy)
+                rows_ok = out.shape == (ni_, 1) and all(np.array_equal(np.asarray(out.iloc[i, 0], dtype=float), X2[i]) for i in range(ni_))
+                lab_ok = list(out.index) == (list(range(ni_)) if labels is None else labels) and (lname == "default" or list(out.columns) == ["series"])
+                tix_ok = as_numpy or all(list(out.iloc[i, 0].index) == (list(range(nt_)) if tix is None else tix) for i in range(ni_))
+                detail = {"index": [str(v) for v in out.index][:6], "first_cell": np.asarray(out.iloc[0, 0], dtype=float)[:4].tolist()}
+            except Exception as e:  # noqa
+                rows_ok = lab_ok = tix_ok = False
+                detail = {"exception": repr(e)[:160]}
+            ctx.check("path.values", rows_ok, "convert:labelled:tab2d->nested:rows-differ", "row i of the table is not the series in row i of the result when instance labels are given",
+                      labels=lname, cells_as_numpy=as_numpy, **detail)
+            ctx.check("path.names", lab_ok and tix_ok, "convert:labelled:tab2d->nested:labels-differ", "the instance labels / time index / column name given are not the ones on the result",
+                      labels=lname, cells_as_numpy=as_numpy, **detail)
+    ctx.tag("labelled-conversions")
     # mixed frame: one nested column, one primitive column
     mixed = df.copy()
     mixed["flat"] = np.arange(len(df), dtype=float)
